@@ -112,6 +112,35 @@ def run(tier, seed):
         srng = random.Random(seed * 7919 + i)
         frames = random_scene(srng)
         traces.append(dict(id=len(traces), tc=tc, w=w, kind="scene", scene_seed=seed * 7919 + i, frames=run_history(tc, w, frames)))
+    # ---- whole sessions with the REAL bottom-up network (repository test checkpoint) and the repository's entry point
+    # main(tracking=True) on the asset video: detections = the same run without tracking ------------------------------
+    from harness import shim
+    from harness.realnet import predict_range
+    from loguru import logger
+    logger.disable("sleap_nn")
+    n_fr = 10 if tier == "quick" else 40
+    n_real = 0
+    try:
+        plain = dict(predict_range(shim.REPO, "bottomup", 0, n_fr, 4, peak_threshold=0.1))
+        for tc in (tcs[:4] if tier == "quick" else tcs):
+            w = 2 + (n_real % 3)
+            trk = dict(w=w, candidates="fixed_window" if tc["store"] == "fixed" else "local_queues", feat=tc["feat"], score=tc["score"], red=tc["red"], match=tc["match"])
+            frames = []
+            try:
+                for fi, insts in predict_range(shim.REPO, "bottomup", 0, n_fr, 4, peak_threshold=0.1, tracking=trk):
+                    dets = plain.get(fi, [])
+                    ret = []
+                    for q, s_, t_ in insts:
+                        idx = next((k + 1 for k, (dq, ds, dt) in enumerate(dets) if np.array_equal(np.isnan(dq), np.isnan(q)) and np.allclose(np.nan_to_num(dq), np.nan_to_num(q), atol=1e-3)), 0)
+                        ret.append([idx, t_])
+                    frames.append(dict(dets=[dict(a=k + 1, hi=(ds > 0.0)) for k, (dq, ds, dt) in enumerate(dets)], ret=ret, raised=False, err=""))
+            except Exception as e:
+                frames.append(dict(dets=[], ret=[], raised=True, err="%s: %s" % (type(e).__name__, str(e)[:200])))
+            traces.append(dict(id=len(traces), tc=tc, w=w, kind="real_session", frames=frames))
+            n_real += 1
+    except Exception as e:
+        raise TLCError("real-network session harness failed: %s: %s" % (type(e).__name__, e))
+    res.coverage["real_network_sessions"] = n_real
     j = judge("Trace_Tracker", [dict(id=t["id"], mode="C09", cfg=dict(store=t["tc"]["store"], match=t["tc"]["match"], red=t["tc"]["red"], w=t["w"]),
                                      frames=[dict(dets=f["dets"], ret=f["ret"], raised=f["raised"]) for f in t["frames"]]) for t in traces],
               cfg_text=TRACE_CFG, per_shard_min=100, timeout=1500)
@@ -141,6 +170,10 @@ def replay(rp, seed):
 
     res = Result("C09")
     c = rp["case"]
+    if c["kind"] == "real_session":
+        full = run("quick", seed)
+        res.violations = [v for v in full.violations if v.case.get("kind") == "real_session"]
+        return res
     if c["kind"] == "scene":
         frames = random_scene(random.Random(c["scene_seed"]))
     else:
